@@ -102,7 +102,7 @@ def atoms(fn):
         splat = 'own'
       entry = [pos, kws, kinds, splat, getattr(n, 'lineno', 0)]
       calls.setdefault(callee, []).append(entry)
-      if len(pos) >= 2 and not splat:
+      if len(pos) >= 1 and not splat:
         # second key: the callee together with the multiset of its positional arguments (finds a transposition when the callee is called several times)
         calls.setdefault('%s @@ %s' % (callee, ' ## '.join(sorted(pos))), []).append(entry)
       if isinstance(n.func, ast.Attribute) and len(n.args) == 1 and not n.keywords and not isinstance(n.args[0], ast.Starred):
@@ -479,6 +479,22 @@ def statements(fn):
   return out
 
 
+def simple_aliases(fn):
+  """[local, value text] for every `local = name_or_dotted` of the function (copy assignments)."""
+  out = []
+  params = set(astu.params(fn))
+  stores = {}
+  for n in _own_nodes(fn):
+    if isinstance(n, ast.Name) and isinstance(n.ctx, ast.Store):
+      stores[n.id] = stores.get(n.id, 0) + 1
+  for n in _own_nodes(fn):
+    if isinstance(n, ast.Assign) and len(n.targets) == 1 and isinstance(n.targets[0], ast.Name) and isinstance(n.value, (ast.Name, ast.Attribute)) and astu.dotted(n.value):
+      t = n.targets[0].id
+      if t not in params and stores.get(t, 0) == 1:  # the only binding of a local: a true alias
+        out.append([t, astu.dotted(n.value)])
+  return out
+
+
 def stmt_table(repo, rels):
   out = {}
   for rel in rels:
@@ -488,7 +504,7 @@ def stmt_table(repo, rels):
     for q, f in m._funcs.items():
       s = statements(f.node)
       if s:
-        out['%s|%s' % (rel, q)] = {'stmts': s, 'params': astu.params(f.node)}
+        out['%s|%s' % (rel, q)] = {'stmts': s, 'params': astu.params(f.node), 'alias': simple_aliases(f.node)}
   return out
 
 
@@ -497,10 +513,15 @@ def _is_ident(x):
 
 
 def _aliases(f, a, b, depth=0):
-  """One of the two is a local of f whose definition is (or contains only) the other one."""
+  """One of the two is a local of f whose definition is (or contains only) the other one.  For two names the alias must be the
+  *only* binding of that local (a parameter that is conditionally re-bound to the other name is not an alias of it); for a constant
+  any binding to that constant counts (`flag = True` ... `g(flag)` vs `g(True)`)."""
   from . import flow
+  const = a in ('True', 'False', 'None') or b in ('True', 'False', 'None')
   for x, y in ((a, b), (b, a)):
     if '.' in x:
+      continue
+    if not const and (x in astu.params(f.node) or len(flow.defs(f, x)) != 1):
       continue
     for d in flow.defs(f, x):
       e = d[0]
@@ -515,12 +536,18 @@ def _aliases(f, a, b, depth=0):
 
 def compare_statements(R, f, ref, now):
   """ref / now: lists of [skeleton hash, leaves, line]."""
-  rv = set(ref['params'])
-  for h, leaves, _l in ref['stmts']:
-    rv.update(x.lstrip('=') for x in leaves)
-  nv = set(astu.params(f.node))
-  for h, leaves, _l in now:
-    nv.update(x.lstrip('=') for x in leaves)
+  def vocab(params, stmts):
+    out = set(params)
+    for h_, leaves, _l in stmts:
+      for x in leaves:
+        x = x.lstrip('=')
+        out.add(x)
+        parts = x.split('.')
+        for i_ in range(1, len(parts)):  # obj of obj.attr, obj.attr of obj.attr.sub
+          out.add('.'.join(parts[:i_]))
+    return out
+  rv = vocab(ref['params'], ref['stmts'])
+  nv = vocab(astu.params(f.node), now)
   ref_exact = {(h, tuple(l)) for h, l, _ in ref['stmts']}
   now_exact = {(h, tuple(l)) for h, l, _ in now}
   n = 0
@@ -553,8 +580,11 @@ def compare_statements(R, f, ref, now):
         R.fail(key_of(f, 'value used at `%s`' % ' '.join(x for x in rl[:6])), (f, line), 'line %d passes the constant `%s` where the reference tree uses `%s` (which still exists in %s) in an otherwise identical statement' % (line, new, old, f.qual))
     elif _is_ident(old) and _is_ident(new):
       # a rename changes every occurrence: the old name then no longer occurs in the function.  Here both names exist on both trees.
-      if new in rv and old in nv and new.split('.')[0] not in ('self',) + () or (new in rv and old in nv):
-        if new in rv and old in nv:
+      ref_alias = {tuple(x) for x in ref.get('alias', [])} | {tuple(reversed(x)) for x in ref.get('alias', [])}
+      # a dotted expression (obj.attr) cannot have been "renamed" into a name that already existed with a role of its own
+      still = old in nv or ('.' in old and '.' not in new)
+      if (old, new) not in ref_alias:
+        if new in rv and still:
           R.fail(key_of(f, 'value used at `%s`' % ' '.join(x for x in rl[:6])), (f, line),
                  'line %d uses `%s` where the reference tree uses `%s` in an otherwise identical statement (both names exist in %s on both trees, so this is not a rename): a different value flows here' % (line, new, old, f.qual))
     elif old.startswith("'") and new.startswith("'"):
